@@ -57,34 +57,57 @@ theorem binPkgOf_dir (keys : List Key) (p : String) (h : p ∈ binPkgOf keys) : 
 /-- **importSpec fails in every form** when the (normalised) path is neither in `binPkg` nor loadable from
     the source tree: there is no third way to satisfy an import -/
 theorem import_fails_all_forms (binPkg : List String) (srcHas : String → Bool) (form : Form) (p : IPath)
-    (hb : p.norm ∉ binPkg) (hs : srcHas p.norm = false) :
-    importSpec binPkg srcHas form p = .error p.norm := by
+    (hb : p.norm binPkg ∉ binPkg) (hs : srcHas (p.norm binPkg) = false) :
+    importSpec binPkg srcHas form p = .error (p.norm binPkg) := by
   simp [importSpec, hb, hs]
 
 /-- conversely an import that does not fail names a package of `binPkg` or of the source tree -/
 theorem import_ok_only_if (binPkg : List String) (srcHas : String → Bool) (form : Form) (p : IPath)
     (h : (importSpec binPkg srcHas form p).isError = false) :
-    p.norm ∈ binPkg ∨ srcHas p.norm = true := by
-  by_cases hb : p.norm ∈ binPkg
+    p.norm binPkg ∈ binPkg ∨ srcHas (p.norm binPkg) = true := by
+  by_cases hb : p.norm binPkg ∈ binPkg
   · exact Or.inl hb
-  · by_cases hs : srcHas p.norm
+  · by_cases hs : srcHas (p.norm binPkg)
     · exact Or.inr hs
     · simp [importSpec, hb, hs, ImportRes.isError] at h
+
+/-- the path looked up is the one written, or — for the spelling "x/x" of a binary package only — its base -/
+theorem norm_cases (binPkg : List String) (p : IPath) :
+    p.norm binPkg = p.full ∨ (p.norm binPkg = p.base ∧ p.dir = p.base ∧ p.base ∈ binPkg) := by
+  unfold IPath.norm
+  split
+  · next h =>
+    simp only [Bool.and_eq_true, beq_iff_eq, List.contains_iff_mem] at h
+    exact Or.inr ⟨rfl, h.1, h.2⟩
+  · exact Or.inl rfl
 
 /-- **with the default symbol set, unsafe / syscall / os/exec cannot be imported through any import form and
     any spelling** (`unsafe`, `unsafe/unsafe`, …), unless the embedder's source tree itself contains a package
     of that name -/
 theorem forbidden_import_fails (srcHas : String → Bool) (form : Form) (p : IPath)
-    (hf : p.norm ∈ forbidden) (hs : srcHas p.norm = false) :
-    importSpec (binPkgOf Generated.C13.defaultKeys) srcHas form p = .error p.norm := by
+    (hf : p.norm (binPkgOf Generated.C13.defaultKeys) ∈ forbidden) (hs : srcHas (p.norm (binPkgOf Generated.C13.defaultKeys)) = false) :
+    importSpec (binPkgOf Generated.C13.defaultKeys) srcHas form p = .error (p.norm (binPkgOf Generated.C13.defaultKeys)) := by
   apply import_fails_all_forms _ _ _ _ _ hs
   intro hb
   obtain ⟨k, hk, hd⟩ := binPkgOf_dir _ _ hb
   exact forbidden_absent k hk (hd ▸ hf)
 
-/-- non-vacuity: the four forms of `import "os/exec"`, and the spelling `unsafe/unsafe` -/
+/-- the spelling "x/x" of a forbidden name is not rewritten to "x" (that rewriting is for binary packages only, and "x"
+    is not one): the import is a source import of the path as written -/
+theorem forbidden_not_rewritten (p : IPath) (hf : p.base ∈ forbidden) :
+    p.norm (binPkgOf Generated.C13.defaultKeys) = p.full := by
+  rcases norm_cases (binPkgOf Generated.C13.defaultKeys) p with h | ⟨_, _, hm⟩
+  · exact h
+  · obtain ⟨k, hk, hd⟩ := binPkgOf_dir _ _ hm
+    exact absurd (hd ▸ hf) (forbidden_absent k hk)
+
+/-- non-vacuity: the four forms of `import "os/exec"`; the spelling `unsafe/unsafe` (not rewritten with the default
+    table, rewritten — and found — once the embedder loads the unsafe set; `fmt/fmt` is rewritten) -/
 example : importSpec (binPkgOf Generated.C13.defaultKeys) (fun _ => false) (.named "x") ⟨"os/exec", "os", "exec"⟩ = .error "os/exec" ∧
-    (⟨"unsafe/unsafe", "unsafe", "unsafe"⟩ : IPath).norm = "unsafe" ∧
+    importSpec (binPkgOf Generated.C13.defaultKeys) (fun _ => false) .plain ⟨"unsafe/unsafe", "unsafe", "unsafe"⟩ = .error "unsafe/unsafe" ∧
+    (⟨"unsafe/unsafe", "unsafe", "unsafe"⟩ : IPath).norm ["fmt", "unsafe"] = "unsafe" ∧
+    importSpec ["fmt", "os"] (fun _ => false) .blank ⟨"fmt/fmt", "fmt", "fmt"⟩ = .bin "fmt" .blank ∧
+    importSpec ["fmt", "os"] (fun ip => ip == "x/x") .plain ⟨"x/x", "x", "x"⟩ = .src "x/x" .plain ∧
     importSpec ["fmt", "os"] (fun _ => false) .dot ⟨"fmt", ".", "fmt"⟩ = .bin "fmt" .dot := by decide
 
 theorem importUsedStep_keys (sc : List UsedSym) (k : UsedKey) (ks : List UsedKey)
@@ -171,11 +194,13 @@ theorem decls_never_exit : ∀ d ∈ G.decls, bodyOutcome d.callees ≠ .exits :
   intro d hd
   simpa using List.all_eq_true.mp decls_never_exit_b d hd
 
-private theorem rebinds_never_exit_b : (G.rebinds.all fun r => bodyOutcome (closure G r.free) != .exits) = true := by decide
-/-- no override of fixStdlib references anything named Exit / Fatal* -/
-theorem rebinds_never_exit : ∀ r ∈ G.rebinds, bodyOutcome (closure G r.free) ≠ .exits := by
+private theorem rebinds_never_exit_b :
+    (allCfgs.all fun cfg => G.rebinds.all fun r => rebindOutcome G cfg r != .exits) = true := by decide
+/-- no override of fixStdlib reaches the host's exit, in any configuration: a closure references nothing named
+    Exit / Fatal*, a method of the default logger is never one of its Fatal* -/
+theorem rebinds_never_exit (cfg : Cfg) : ∀ r ∈ G.rebinds, rebindOutcome G cfg r ≠ .exits := by
   intro r hr
-  simpa using List.all_eq_true.mp rebinds_never_exit_b r hr
+  simpa using List.all_eq_true.mp (forall_cfg rebinds_never_exit_b cfg) r hr
 
 def hostBindOk : Bind → Bool
   | .host p n => hostFnOutcome p n != .exits
@@ -228,7 +253,7 @@ theorem findDecl_mem {F : Facts} {n : String} {d : Decl} (h : findDecl F n = som
 theorem no_exit_call (cfg : Cfg) (pkg name : String) : callOutcome G cfg pkg name ≠ .exits := by
   unfold callOutcome
   split
-  · next r hr => exact rebinds_never_exit r (effective_override hr)
+  · next r hr => exact rebinds_never_exit cfg r (effective_override hr)
   · next p n hb =>
     have := lookupTable_ok pkg name _ (effective_table hb)
     simpa [hostBindOk] using this
@@ -238,82 +263,215 @@ theorem no_exit_call (cfg : Cfg) (pkg name : String) : callOutcome G cfg pkg nam
     · simp
   · simp
 
-/-- functions of the default table that hand the script a host `*log.Logger` -/
+/-- functions of the default table that still hand the script a host `*log.Logger` (F12, narrowed by 77e1d98:
+    log.Default is no longer one of them) -/
 def hostLoggerSources : List (String × String) :=
-  [("log", "Default"), ("log/slog", "NewLogLogger"), ("log/syslog", "NewLogger")]
+  [("log/slog", "NewLogLogger"), ("log/syslog", "NewLogger")]
 
 private theorem logger_sources_known_b :
-    (G.loggerReturning.all fun s => hostLoggerSources.contains (s.pkg, s.name)) = true := by decide
+    (G.loggerReturning.all fun s => hostLoggerSources.contains (s.pkg, s.name) || (s.pkg == "log" && s.name == "Default")) = true := by
+  decide
 
-/-- full-strength statement: no method call on a logger obtained from the table ends the process -/
-def NoHostLoggerSource : Prop := ∀ (cfg : Cfg) (pkg name m : String), methodOutcome G cfg pkg name m ≠ .exits
+/-- in restricted mode `log.Default` is the override of fixStdlib: a function returning the interpreter's own default
+    logger, which is made by the script's `log.New` and so is of the wrapper type of restricted.go -/
+private theorem log_default_b :
+    (allCfgs.all fun cfg => cfg.unrestricted || loggerOf G cfg "log" "Default" == .wrapper "logLogger") = true := by decide
 
-/-- **the Fatal methods of loggers panic** for every logger source except the three functions that return the
-    host's own `*log.Logger` -/
-theorem no_host_logger_source_partial (cfg : Cfg) (pkg name m : String) (hdom : (pkg, name) ∉ hostLoggerSources) :
-    methodOutcome G cfg pkg name m ≠ .exits := by
-  unfold methodOutcome
+theorem log_default_wrapper (cfg : Cfg) (hr : cfg.unrestricted = false) : loggerOf G cfg "log" "Default" = .wrapper "logLogger" := by
+  have h := forall_cfg log_default_b cfg
+  simpa [hr] using h
+
+theorem wrapper_method_never_exits (t m : String) : loggerMethodOutcome G (.wrapper t) m ≠ .exits := by
+  simp only [loggerMethodOutcome]
   split
-  · next d hd =>
-    split
-    · next dd hdd =>
-      split
-      · next t ht =>
-        split
-        · next md hmd => exact decls_never_exit md (findDecl_mem hmd)
-        · simp
-      · simp
-    · simp
-  · next p n hb =>
-    split
-    · next hany =>
-      exfalso
-      simp only [List.any_eq_true, Bool.and_eq_true, beq_iff_eq] at hany
-      obtain ⟨s, hs, hp, hn⟩ := hany
-      have := List.all_eq_true.mp logger_sources_known_b s hs
-      rw [hp, hn] at this
-      exact hdom (by simpa using this)
-    · simp
+  · next md hmd => exact decls_never_exit md (findDecl_mem hmd)
   · simp
 
-/-- F12: `log.Default().Fatal(…)` ends the host process (and so do the other two sources) -/
+theorem bindLogger_host {pkg name : String} {b : Bind} (h : bindLogger G pkg name b = .host) :
+    ∃ s ∈ G.loggerReturning, s.pkg = pkg ∧ s.name = name := by
+  unfold bindLogger at h
+  split at h
+  · split at h
+    · split at h <;> cases h
+    · cases h
+  · split at h
+    · next hany =>
+      simp only [List.any_eq_true, Bool.and_eq_true, beq_iff_eq] at hany
+      exact hany
+    · cases h
+  · cases h
+
+/-- full-strength statement: in restricted mode no method call on a logger obtained from the table ends the process -/
+def NoHostLoggerSource : Prop :=
+  ∀ (cfg : Cfg) (pkg name m : String), cfg.unrestricted = false → methodOutcome G cfg pkg name m ≠ .exits
+
+/-- **in restricted mode the Fatal methods of loggers panic** for every logger source — `log.New`, and since 77e1d98
+    `log.Default` — except the two functions that still return the host's own `*log.Logger` -/
+theorem no_host_logger_source_partial (cfg : Cfg) (hr : cfg.unrestricted = false) (pkg name m : String)
+    (hdom : (pkg, name) ∉ hostLoggerSources) : methodOutcome G cfg pkg name m ≠ .exits := by
+  unfold methodOutcome
+  cases hk : loggerOf G cfg pkg name with
+  | wrapper t => exact wrapper_method_never_exits t m
+  | unknown => simp [loggerMethodOutcome]
+  | host =>
+    exfalso
+    unfold loggerOf at hk
+    split at hk
+    · next r hr' =>
+      -- an override that returns a local of fixStdlib: only `log.Default`, a wrapper in restricted mode
+      have hd := log_default_wrapper cfg hr
+      unfold loggerOf at hd
+      have hr2 := effective_override hr'
+      have hb : (allCfgs.all fun cfg => G.rebinds.all fun r =>
+          match r.shape with
+          | .constFn x => cfg.unrestricted || localLogger G cfg x != .host
+          | _ => true) = true := by decide
+      have h3 := List.all_eq_true.mp (forall_cfg hb cfg) r hr2
+      split at hk
+      · next x hx =>
+        rw [hx] at h3
+        simp [hr, hk] at h3
+      · cases hk
+    · next b hb =>
+      obtain ⟨s, hs, hp, hn⟩ := bindLogger_host hk
+      have h4 := List.all_eq_true.mp logger_sources_known_b s hs
+      rw [hp, hn] at h4
+      simp only [Bool.or_eq_true, List.contains_iff_mem, Bool.and_eq_true, beq_iff_eq] at h4
+      rcases h4 with h4 | ⟨h5, h6⟩
+      · exact hdom h4
+      · -- log.Default: in restricted mode it is overridden, so it is not read from the table
+        subst h5; subst h6
+        have hd := log_default_wrapper cfg hr
+        have : loggerOf G cfg "log" "Default" = .host := by
+          unfold loggerOf; rw [hb]; exact hk
+        rw [this] at hd; cases hd
+    · cases hk
+
+/-- F12 (what remains): `slog.NewLogLogger(…).Fatal(…)` ends the host process, and so does the syslog source -/
 theorem no_host_logger_source_witness : ¬ NoHostLoggerSource := by
   intro h
-  exact h {} "log" "Default" "Fatal" (by decide)
+  exact h {} "log/slog" "NewLogLogger" "Fatal" rfl (by decide)
 
 theorem host_logger_sources_exit :
     ∀ s ∈ hostLoggerSources, ∀ m ∈ fatalNames, methodOutcome G {} s.1 s.2 m = .exits := by decide
 
-/-- non-vacuity of the partial theorem: `log.New(…).Fatal` is in its domain and panics -/
-example : ("log", "New") ∉ hostLoggerSources ∧ methodOutcome G {} "log" "New" "Fatal" = .panics := by decide
+/-- non-vacuity of the partial theorem: `log.New(…).Fatal` and `log.Default().Fatal` are in its domain and panic -/
+example : ("log", "New") ∉ hostLoggerSources ∧ methodOutcome G {} "log" "New" "Fatal" = .panics ∧
+    ("log", "Default") ∉ hostLoggerSources ∧ methodOutcome G {} "log" "Default" "Fatal" = .panics := by decide
 
-/-- F13-1: a FlagSet created with flag.ExitOnError ends the host process on a parse error; the other two
-    error-handling modes do not -/
-theorem flagset_exit_witness : flagSetOutcome G {} "ExitOnError" = .exits := by decide
-theorem flagset_others (cfg : Cfg) : ∀ h ∈ ["ContinueOnError", "PanicOnError"], flagSetOutcome G cfg h ≠ .exits := by
+/-- facts of the tree before 77e1d98 / b69bc95 / 3f8ef33, as far as the model reads them: fixStdlib without the overrides
+    of log.Default and flag.NewFlagSet, `l := log.New(stderr, …)`, `c := flag.NewFlagSet(os.Args[0], …)` -/
+def oldFacts : Facts :=
+  { G with
+    rebinds := G.rebinds.filter fun r => !((r.pkg == "log" && r.name == "Default") || (r.pkg == "flag" && r.name == "NewFlagSet"))
+    locals := G.locals.filterMap fun l =>
+      if l.name == "l" then some { l with expr := "log.New(stderr, \"\", log.LstdFlags)" }
+      else if l.name == "c" then some { l with expr := "flag.NewFlagSet(os.Args[0], flag.PanicOnError)" }
+      else if l.name == "prog" || l.name == "newLogger" then none
+      else some l }
+
+/-- regression of the replay of F12 (`log.Default().Fatal("bye")`): it reaches a panic on the repaired tree, in every
+    restricted configuration; on the old facts the model reproduces the exit -/
+theorem log_default_fatal_panics (cfg : Cfg) (hr : cfg.unrestricted = false) :
+    ∀ m ∈ fatalNames, methodOutcome G cfg "log" "Default" m = .panics := by
+  have hb : (allCfgs.all fun cfg => cfg.unrestricted || fatalNames.all fun m => methodOutcome G cfg "log" "Default" m == .panics) = true := by
+    decide
+  intro m hm
+  have h := forall_cfg hb cfg
+  simp only [hr, Bool.false_or] at h
+  simpa using List.all_eq_true.mp h m hm
+
+example : methodOutcome G {} "log" "Default" "Fatal" = .panics ∧ methodOutcome oldFacts {} "log" "Default" "Fatal" = .exits ∧
+    callOutcome oldFacts {} "log" "Fatal" = .panics := by decide
+
+/-- what `hr` excludes: with Options.Unrestricted the default logger is the host's own (made by the host's log.New) -/
+theorem log_default_unrestricted : methodOutcome G { unrestricted := true } "log" "Default" "Fatal" = .exits := by decide
+
+/-! #### flag sets -/
+
+private theorem newflagset_b :
+    (allCfgs.all fun cfg => cfg.unrestricted ||
+      (match effective G cfg "flag" "NewFlagSet" with
+       | .override r => r.shape == .remap "flag.NewFlagSet" [(⟨"flag.ExitOnError", "flag", "ExitOnError"⟩, ⟨"flag.PanicOnError", "flag", "PanicOnError"⟩)]
+       | _ => false)) = true := by decide
+
+theorem hostFlagError_remap (h : String) :
+    hostFlagError (remapConst [(⟨"flag.ExitOnError", "flag", "ExitOnError"⟩, ⟨"flag.PanicOnError", "flag", "PanicOnError"⟩)] h) ≠ .exits := by
+  by_cases hh : h = "ExitOnError"
+  · subst hh; decide
+  · have h1 : ¬ "ExitOnError" = h := fun e => hh e.symm
+    simp only [remapConst, hostFlagError, List.foldl_cons, List.foldl_nil, beq_iff_eq, h1, if_false, hh]
+    split <;> simp
+
+/-- **F13-1 repaired (b69bc95): in restricted mode a flag set made by `flag.NewFlagSet` never ends the host on a parse
+    error, whatever error handling it is created with** — for every handling name (not a sample) and every restricted
+    configuration; the override of fixStdlib is read from the regenerated facts -/
+theorem flagset_never_exits (cfg : Cfg) (hr : cfg.unrestricted = false) (h : String) : flagSetOutcome G cfg h ≠ .exits := by
+  have hb := forall_cfg newflagset_b cfg
+  simp only [hr, Bool.false_or] at hb
+  unfold flagSetOutcome
+  split
+  · next h' _ =>
+    split at hb
+    · next r hr' =>
+      rw [hr']
+      simp only [beq_iff_eq] at hb
+      simp only [hb]
+      simpa using hostFlagError_remap h'
+    · cases hb
+  · simp
+
+/-- regression of the replay of F13-1 (`flag.NewFlagSet("x", flag.ExitOnError).Parse([]string{"-nope"})`): a panic on the
+    repaired tree, the exit on the old facts; the other two modes are unchanged -/
+example : flagSetOutcome G {} "ExitOnError" = .panics ∧ flagSetOutcome oldFacts {} "ExitOnError" = .exits ∧
+    flagSetOutcome G {} "ContinueOnError" = .returns ∧ flagSetOutcome G {} "PanicOnError" = .panics := by decide
+
+/-- what `hr` excludes: with Options.Unrestricted `flag.NewFlagSet` is the host's own -/
+theorem flagset_unrestricted : flagSetOutcome G { unrestricted := true } "ExitOnError" = .exits := by decide
+
+/-- F13-1 (what remains): `(*flag.FlagSet).Init(name, flag.ExitOnError)` sets the error handling behind the back of the
+    override — on a zero FlagSet, on the result of flag.NewFlagSet, on flag.CommandLine — and a parse error then ends the
+    host process; the other two modes do not -/
+theorem flagset_init_exit_witness : flagSetInitOutcome G {} "ExitOnError" = .exits := by decide
+theorem flagset_init_others (cfg : Cfg) : ∀ h ∈ ["ContinueOnError", "PanicOnError"], flagSetInitOutcome G cfg h ≠ .exits := by
   intro h hh
-  have hb : (allCfgs.all fun cfg => ["ContinueOnError", "PanicOnError"].all fun h => flagSetOutcome G cfg h != .exits) = true := by
+  have hb : (allCfgs.all fun cfg => ["ContinueOnError", "PanicOnError"].all fun h => flagSetInitOutcome G cfg h != .exits) = true := by
     decide
   simpa using List.all_eq_true.mp (forall_cfg hb cfg) h hh
 
-/-- full-strength statement: no call of the model's vocabulary ends the host process -/
-def NoCallExits : Prop := ∀ (cfg : Cfg) (c : ExitCall), exitOutcome G cfg c ≠ .exits
+/-- the exit entry points closed by the repairs of round 3 -/
+def repairedExitCalls : List ExitCall :=
+  [.method "log" "Default" "Fatal", .method "log" "Default" "Fatalf", .method "log" "Default" "Fatalln",
+   .flagSet "ExitOnError", .flagSet "PanicOnError"]
+
+theorem repaired_exit_points_overridden (cfg : Cfg) (hr : cfg.unrestricted = false) :
+    ∀ c ∈ repairedExitCalls, exitOutcome G cfg c = .panics := by
+  have hb : (allCfgs.all fun cfg => cfg.unrestricted || repairedExitCalls.all fun c => exitOutcome G cfg c == .panics) = true := by decide
+  intro c hc
+  have h := forall_cfg hb cfg
+  simp only [hr, Bool.false_or] at h
+  simpa using List.all_eq_true.mp h c hc
+
+/-- full-strength statement: in restricted mode no call of the model's vocabulary ends the host process -/
+def NoCallExits : Prop := ∀ (cfg : Cfg) (c : ExitCall), cfg.unrestricted = false → exitOutcome G cfg c ≠ .exits
 
 theorem no_call_exits_witness : ¬ NoCallExits := by
   intro h
-  exact h {} (.flagSet "ExitOnError") (by decide)
+  exact h {} (.flagSetInit "ExitOnError") rfl (by decide)
 
-/-- **summary**: whatever call a script makes, if it ends the host process it is a method of a logger obtained
-    from one of the three host-logger sources, or a FlagSet's own error handling (the two finding classes) -/
-theorem exits_only_via_known (cfg : Cfg) (c : ExitCall) (h : exitOutcome G cfg c = .exits) :
-    (∃ p n m, c = .method p n m ∧ (p, n) ∈ hostLoggerSources) ∨ (∃ hd, c = .flagSet hd) := by
+/-- **summary**: whatever call a script makes in restricted mode, if it ends the host process it is a method of a logger
+    obtained from one of the two remaining host-logger sources, or the error handling a FlagSet was given through its own
+    `Init` method (the two finding classes that are still open) -/
+theorem exits_only_via_known (cfg : Cfg) (hr : cfg.unrestricted = false) (c : ExitCall) (h : exitOutcome G cfg c = .exits) :
+    (∃ p n m, c = .method p n m ∧ (p, n) ∈ hostLoggerSources) ∨ (∃ hd, c = .flagSetInit hd) := by
   cases c with
   | fn p n => exact absurd h (no_exit_call cfg p n)
   | method p n m =>
     by_cases hd : (p, n) ∈ hostLoggerSources
     · exact Or.inl ⟨p, n, m, rfl, hd⟩
-    · exact absurd h (no_host_logger_source_partial cfg p n m hd)
-  | flagSet hd => exact Or.inr ⟨hd, rfl⟩
+    · exact absurd h (no_host_logger_source_partial cfg hr p n m hd)
+  | flagSet hd => exact absurd h (flagset_never_exits cfg hr hd)
+  | flagSetInit hd => exact Or.inr ⟨hd, rfl⟩
 
 /-! ### environment -/
 
@@ -436,6 +594,7 @@ theorem print_builtins_redirected : builtinStream G "_print" = .optStdout ∧ bu
 /-- the inputs on which a name of os / log / fmt / flag still reaches the host's streams or arguments -/
 def ioException (cfg : Cfg) (pkg name : String) : Bool :=
   (pkg == "flag" && flagCmdLineFns.contains name) ||
+  (pkg == "log/slog" && slogDefaultFns.contains name) ||
   (pkg == "os" && !cfg.specialStdio &&
     ((name == "Stdin" && !cfg.stdinFile) || (name == "Stdout" && !cfg.stdoutFile) || (name == "Stderr" && !cfg.stderrFile)))
 
@@ -461,9 +620,10 @@ theorem effective_table_norebind {F : Facts} {c : Cfg} {p n : String} {b : Bind}
 /-- full-strength statement: no name of the carried tables reaches a host stream or the host's arguments -/
 def IoAllRedirected : Prop := ∀ (cfg : Cfg) (pkg name : String), isHost (ioStream G cfg pkg name) = false
 
-/-- **every name `pkg.name` of os / log / fmt / flag that still reaches the host's streams or arguments is in one
-    of two classes**: a package-level function of flag (F13-2), or os.Stdin/Stdout/Stderr when the stream given
-    in `Options` is not an *os.File and YAEGI_SPECIAL_STDIO is off (F13-3) — for all names and configurations -/
+/-- **every name `pkg.name` of os / log / fmt / flag / log/slog that still reaches the host's streams or arguments is in
+    one of three classes**: a package-level function of flag (F13-2), os.Stdin/Stdout/Stderr when the stream given
+    in `Options` is not an *os.File and YAEGI_SPECIAL_STDIO is off (F13-3), or a function of log/slog that goes through
+    slog's default logger (F13-8) — for all names and configurations -/
 theorem io_redirect_partial (cfg : Cfg) (pkg name : String) (hdom : ioException cfg pkg name = false) :
     isHost (ioStream G cfg pkg name) = false := by
   have key : ∀ b, effective G cfg pkg name = .table b → isHost (bindHostStream b) = false := by
@@ -515,8 +675,19 @@ theorem os_std_streams_witness :
 
 theorem flag_functions_host_witness : ∀ n ∈ flagCmdLineFns, ioStream G {} "flag" n = .hostFlag := by decide
 
-/-- F12 once more: output of the host's standard logger goes to the host's stderr -/
-theorem host_logger_stream_witness : loggerStream G {} "log" "Default" = .hostStderr := by decide
+/-- F13-8: the functions of log/slog that use its default logger are the host's own, and that logger hands its records to
+    the host's standard logger of package log — the one 77e1d98 took away from the script's `log.Default` — which writes
+    to the host's stderr -/
+theorem slog_default_host_witness : ∀ n ∈ slogDefaultFns, ioStream G {} "log/slog" n = .hostStderr := by decide
+
+/-- F12 repaired (77e1d98), the output side: **the logger `log.Default()` returns writes to the stream given in
+    Options**, in every configuration (it is the logger behind log.Print, created over `stderr`); on the old facts the
+    model reproduces the host's standard logger writing to the host's stderr -/
+theorem default_logger_stream (cfg : Cfg) : loggerStream G cfg "log" "Default" = .optStderr := by
+  have hb : (allCfgs.all fun cfg => loggerStream G cfg "log" "Default" == .optStderr) = true := by decide
+  simpa using forall_cfg hb cfg
+
+example : loggerStream oldFacts {} "log" "Default" = .hostStderr := by decide
 
 /-- non-vacuity of the partial theorem -/
 example : ioException {} "fmt" "Println" = false ∧ ioStream G {} "fmt" "Println" = .optStdout ∧
@@ -560,17 +731,17 @@ theorem os_args_bound (cfg : Cfg) : ioStream G cfg "os" "Args" = .args :=
     every host -/
 theorem args_from_options (o : Options) (h : Host) (a : List String) (ha : o.args = some a) :
     scriptArgs G o h = some a := by
-  simp [scriptArgs, scriptArgsSrc, os_args_bound, slotSlice, flow_args, resolve_default_if_nil, ha, ArgsSrc.value]
+  simp [scriptArgs, scriptArgsSrc, interpArgsSrc, os_args_bound, slotSlice, flow_args, resolve_default_if_nil, ha, ArgsSrc.value]
 
 /-- **… and the host's command line only when Options.Args is nil** (the documented default) -/
 theorem args_default_host (o : Options) (h : Host) (hn : o.args = none) : scriptArgs G o h = some h.args := by
-  simp [scriptArgs, scriptArgsSrc, os_args_bound, slotSlice, flow_args, resolve_default_if_nil, hn, ArgsSrc.value]
+  simp [scriptArgs, scriptArgsSrc, interpArgsSrc, os_args_bound, slotSlice, flow_args, resolve_default_if_nil, hn, ArgsSrc.value]
 
 /-- both at once: the host's arguments reach the script iff Options.Args is nil -/
 theorem args_src_iff (o : Options) (h : Host) : scriptArgsSrc G o h = .host ↔ o.args = none := by
   cases ha : o.args with
-  | none => simp [scriptArgsSrc, os_args_bound, slotSlice, flow_args, resolve_default_if_nil, ha]
-  | some a => simp [scriptArgsSrc, os_args_bound, slotSlice, flow_args, resolve_default_if_nil, ha]
+  | none => simp [scriptArgsSrc, interpArgsSrc, os_args_bound, slotSlice, flow_args, resolve_default_if_nil, ha]
+  | some a => simp [scriptArgsSrc, interpArgsSrc, os_args_bound, slotSlice, flow_args, resolve_default_if_nil, ha]
 
 /-- non-vacuity: the empty vector, one element, several; unrestricted mode; a host with a long command line -/
 example : scriptArgs G { args := some [] } { args := ["/usr/bin/host", "--secret=1"] } = some [] ∧
@@ -689,36 +860,40 @@ theorem filesystem_from_options {α : Type} (v : Option α) :
 
 /-! #### flag -/
 
-private def cmdLineHostB (cfg : Cfg) : Bool :=
-  match effective G cfg "flag" "CommandLine" with
-  | .override r => hasId (closure G r.free) "os.Args"
-  | _ => false
+private theorem cmdline_kind_b : (allCfgs.all fun cfg => cmdLineNameKind G cfg == .argsHead) = true := by decide
 
-private theorem cmdline_host_b : allCfgs.all cmdLineHostB = true := by decide
+/-- `flag.CommandLine` is created as `flag.NewFlagSet(prog, …)` with `prog` = element 0 of the interpreter's own
+    argument vector ("" when it is empty) — read from the regenerated definitions of the locals of fixStdlib -/
+theorem cmdline_kind (cfg : Cfg) : cmdLineNameKind G cfg = .argsHead := by
+  simpa using forall_cfg cmdline_kind_b cfg
 
-/-- F13-5: `flag.CommandLine` is created as `flag.NewFlagSet(os.Args[0], …)` over the HOST's os.Args: its name (and the
-    "Usage of …" line) is the host program's, whatever Options.Args is -/
-theorem cmdline_name_host (o : Options) (h : Host) : cmdLineNameSrc G o h = .host := by
-  have hb := forall_cfg cmdline_host_b (cfgOf G o h)
-  unfold cmdLineHostB at hb
-  unfold cmdLineNameSrc
-  split at hb
-  · next r hr => simp [hr, hb]
-  · exact absurd hb (by simp)
+theorem interp_args_from_options (o : Options) :
+    interpArgsSrc G o = match o.args with | some a => .opt a | none => .host := by
+  cases ha : o.args <;> simp [interpArgsSrc, slotSlice, flow_args, resolve_default_if_nil, ha]
 
-/-- full-strength statement: the name of flag.CommandLine is element 0 of the arguments given in Options -/
-def CmdLineNamedFromOptions : Prop :=
-  ∀ (o : Options) (h : Host) (a : List String), o.args = some a → cmdLineNameSrc G o h = .opt a
+/-- **F13-5 repaired (3f8ef33): the name of the script's flag.CommandLine (and of its "Usage of …" line) is element 0 of
+    the arguments given in Options — "" for the empty vector —, for every value of Options and every host** -/
+theorem cmdline_name_from_options (o : Options) (h : Host) (a : List String) (ha : o.args = some a) :
+    cmdLineName G o h = some (headOr a) := by
+  simp [cmdLineName, cmdline_kind, interp_args_from_options, ha, ArgsSrc.value]
 
-theorem cmdline_name_witness : ¬ CmdLineNamedFromOptions := by
-  intro hh
-  have := hh { args := some ["prog"] } {} ["prog"] rfl
-  rw [cmdline_name_host] at this
-  cases this
+/-- … and the host program's only when Options.Args is nil (the script's arguments are then the host's) -/
+theorem cmdline_name_default_host (o : Options) (h : Host) (hn : o.args = none) :
+    cmdLineName G o h = some (headOr h.args) := by
+  simp [cmdLineName, cmdline_kind, interp_args_from_options, hn, ArgsSrc.value]
 
-/-- … it is right exactly when Options.Args is nil (the script's arguments are then the host's) -/
-theorem cmdline_name_partial (o : Options) (h : Host) (hn : o.args = none) : cmdLineNameSrc G o h = scriptArgsSrc G o h := by
-  rw [cmdline_name_host, (args_src_iff o h).mpr hn]
+/-- in one statement: the command line is always named after element 0 of what the script sees as os.Args -/
+theorem cmdline_name_is_script_arg0 (o : Options) (h : Host) : cmdLineName G o h = (scriptArgs G o h).map headOr := by
+  cases ha : o.args with
+  | none => rw [cmdline_name_default_host o h ha, args_default_host o h ha]; rfl
+  | some a => rw [cmdline_name_from_options o h a ha, args_from_options o h a ha]; rfl
+
+/-- regression of the replay of F13-5 (`Options.Args = ["prog"]`, `flag.CommandLine.Name()`): "prog" on the repaired
+    tree, the host program's path on the old facts; the empty vector and the nil vector -/
+example : cmdLineName G { args := some ["prog"] } { args := ["/usr/bin/host", "-x"] } = some "prog" ∧
+    cmdLineName oldFacts { args := some ["prog"] } { args := ["/usr/bin/host", "-x"] } = some "/usr/bin/host" ∧
+    cmdLineName G { args := some [] } { args := ["/usr/bin/host"] } = some "" ∧
+    cmdLineName G {} { args := ["/usr/bin/host"] } = some "/usr/bin/host" := by decide
 
 private theorem flag_parse_b :
     (allCfgs.all fun cfg => ioStream G cfg "flag" "Parse" == .hostFlag && ioStream G cfg "flag" "Args" == .hostFlag) = true := by decide
